@@ -14,7 +14,7 @@ CLAIMS = {
    note="Trusts the reference model and the dispatcher hook. Unreduced scalars only on entry points documented to accept them.",
    technique="deterministic simulation: environment-controlled dispatcher + injected None/iterator kinds, lockstep against reference sum"),
  "C06": dict(level="exploration", ref="DESIGN.md §3 C06",
-   text="Seeded histories over Ristretto handles: Byzantine encodings, one-way map inputs (incl. chosen digest output), group operations, coset re-representation through the hook, batch double-and-compress; compared step by step with an RFC 9496 reference model; type invariant (representative in 2E, on curve) checked on raw coordinates.",
+   text="Seeded histories over Ristretto handles: Byzantine encodings, one-way map inputs (incl. chosen digest output), group operations, coset re-representation through the hook, batch double-and-compress; every decode additionally through the group-trait unchecked decoder (must agree on accepted encodings, must never hand out a value that re-encodes to other bytes); compared step by step with an RFC 9496 reference model; type invariant (representative in 2E, on curve) checked on raw coordinates.",
    note="Trusts the RFC 9496 transcription validated by the RFC vectors; hook constructors ristretto_inner/ristretto_from_edwards.",
    technique="deterministic simulation: lockstep refinement against RFC 9496 model over seeded histories with coset-representative injection"),
  "C07": dict(level="exploration", ref="DESIGN.md §3 C07",
@@ -34,7 +34,7 @@ CLAIMS = {
    note="False Ok for an in-domain bad batch has probability 2^-128 and is ignored.",
    technique="deterministic simulation: queue histories under network faults, metamorphic (repeat/permute/duplicate) plus reference-conjunction oracle"),
  "C14": dict(level="exploration", ref="DESIGN.md §3 C14",
-   text="Create/use/drop histories run twice under a deterministic arena allocator with secrets differing in every byte; every freed block compared pairwise (differential taint) and dropped objects scanned for windows of their secrets; dispatcher forced per run; release and debug-assertions builds; multiscalars up to 8200 terms.",
+   text="Create/use/drop histories run twice under a deterministic arena allocator with secrets differing in every byte; every freed block compared pairwise (differential taint) and dropped objects scanned for windows of their secrets; dispatcher forced per run; release, debug-assertions and 32-bit-limb builds; multiscalars up to 8200 terms.",
    note="Frees during unwinding and stale stack copies are outside the statement.",
    technique="deterministic simulation: allocator seam with paired-run differential taint on freed blocks and drop-point scanning"),
  "C15": dict(level="exploration", ref="DESIGN.md §3 C15",
